@@ -801,6 +801,41 @@ def run(ck):
                "minimal_patch": "Lij: vTK = vacancyThermoKinetics(pre=np.ones_like(bFV), betaene=np.array(bFV), preT=np.ones_like(bFT0), betaeneT=np.array(bFT0))"},
               key="c14-cache-key-aliases-input")
     ck.extra["cache_key_shares_memory_with_input"] = keyalias
+    # ---- 4f. inputs whose overall rate scale differs by 1e-3 .. 1e-12 (both directions) from the first input on the object:
+    #          all transition-state free energies shifted by Delta scale every rate by exp(-Delta), hence L by exp(-Delta) exactly
+    RT = 1e-9
+    for nm in (("square", "rect", "pg4") if ck.quick else tuple(pools)):
+        pool = pools[nm]
+        base_in = pool.input((1, 4), (0, 0))
+        refb = pool.reference((1, 4), (0, 0))
+        for k10 in (3, 6, 9, 12):
+            for sign in (1, -1):
+                Delta = sign * k10 * np.log(10.0)
+                shifted = tuple(x.copy() for x in base_in[:3]) + tuple(x + Delta for x in base_in[3:])
+                refs = tuple(np.array(x, copy=True) for x in pool.fresh((1, 4)).Lij(*[x.copy() for x in shifted]))
+                lam = np.exp(-Delta)
+                # the oracle itself: fresh calculators obey the scaling law
+                law = max(float(np.abs(x - lam * y).max()) / max(float(np.abs(lam * y).max()), 1e-300) for x, y in zip(refs, refb))
+                for order in (("base", "shifted"), ("shifted", "base")):
+                    d = pool.fresh((1, 4))
+                    ck.case(key=("scale", nm, k10, sign, order[0]), nontrivial=True, kind="rate-scale:1e%+d" % (-sign * k10))
+                    try:
+                        for which in order:
+                            res = d.Lij(*[x.copy() for x in (base_in if which == "base" else shifted)])
+                            ref = refb if which == "base" else refs
+                            rel = [float(np.abs(np.asarray(x) - y).max()) / max(float(np.abs(y).max()), 1e-300) for x, y in zip(res, ref)]
+                            if max(rel) > RT:
+                                V("after an input whose vacancy rates are 10^%d times those of this one, Lij on the same calculator differs from a fresh "
+                                  "calculator by %.3g (relative; per array %s)" % (sign * k10 if which == "base" else -sign * k10, max(rel), ["%.2g" % r for r in rel]),
+                                  {"calculator": nm, "crystal": repr(pool.crys), "cutoff": pool.cut, "order": list(order), "failing": which, "Delta_bFT": float(Delta),
+                                   "base_input": [x.tolist() for x in base_in], "relative_differences": rel, "scaling_law_on_fresh_calculators": law},
+                                  key="c14-rate-scale-history")
+                    except Exception as e:
+                        V("Lij raises %r for an input whose rate scale is 10^%d times that of the first input on the calculator" % (e, -sign * k10),
+                          {"calculator": nm, "order": list(order), "Delta_bFT": float(Delta), "base_input": [x.tolist() for x in base_in]}, key="c14-rate-scale-history")
+                if law > 1e-8:
+                    V("fresh calculators violate the scaling law L(lambda*rates) = lambda*L by %.3g for lambda = 10^%d" % (law, -sign * k10),
+                      {"calculator": nm, "Delta_bFT": float(Delta), "base_input": [x.tolist() for x in base_in]}, key="c14-scaling-law")
     # ---- 4e. several cache entries created in NON-sorted key order, save/load, then every cached input again
     for nm in ("rect", "rect-polar2d", "pg4"):
         pool = pools[nm]
